@@ -275,6 +275,10 @@ class BaseMDA(ProcessDiscipline):
     @scaling.setter
     def scaling(self, scaling: ResidualScaling) -> None:
         # This setter will be overloaded in certain child classes.
+        if scaling != self._scaling:
+            # The scaling data depend on the scaling method:
+            # they will be computed again at the next execution.
+            self._scaling_data = None
         self._scaling = scaling
 
     def _initialize_grammars(self) -> None:
